@@ -104,7 +104,11 @@ impl ExecutionCidState {
         self.value_tracker
             .get(cid)
             .ok_or_else(|| UncatchableError::ValueForCidNotFound("value", cid.get_inner()))
-            .map(|vm_value| vm_value.get_value())
+            .and_then(|vm_value| {
+                vm_value
+                    .try_get_value()
+                    .map_err(|e| UncatchableError::MalformedValue(cid.get_inner(), e))
+            })
     }
 
     pub(crate) fn get_tetraplet_by_cid(
